@@ -5,6 +5,8 @@ from pyvc_contracts_d10_tree_structure import struct, PREFIX, NEWDEMES, TREE_LIS
 T = "pyhms.tree.DemeTree."
 SM = "pyhms.sprout.sprout_mechanisms.SproutMechanism."
 
+ghost_fields(**{"$last_seeds": "dict[ref:AbstractDeme,ref:DemeCandidates]"})
+macro("last_seeds", ["t"], 'field(t, "$last_seeds", "dict[ref:AbstractDeme,ref:DemeCandidates]")')
 macro("hibernation_on", ["t"], "'hibernation' in t.config.options and t.config.options['hibernation']")
 macro("ActiveNonLeaf", ["t", "d"], "InTree(t, d) and d._active and d._level < len(t._levels) - 1")
 
@@ -24,17 +26,24 @@ fn(SM + "get_seeds", params={"tree": "ref:DemeTree"}, returns="dict[ref:Abstract
 HIB_FRAME = [("_hibernating", "InTree(self, cast(o, 'ref:AbstractDeme'))")]
 
 fn(T + "run_sprout",
+   ghost_after={"get_seeds@0": ["setg(self, '$last_seeds', _call_result)"]},
    requires=struct("self") + [cl("problems", "LevelProblemsWf(self)"),
                               cl("mechanism", "self._sprout_mechanism != None")],
    modifies=TREE_LISTS + USER_PROBLEM_FRAME + HIB_FRAME + [("_centroid", "True"), ("$list", "kind(o) == 7")],
-   loops={0: dict(index="j", seq="anl", invariant=[
-       cl("inv_processed", "forall(lambda q: imp(0 <= q < j, anl[q][1]._hibernating == (not (anl[q][1] in deme_seeds))))"),
+   loops={0: dict(index="j", seq_base="anl", modifies=HIB_FRAME, invariant=[
+       cl("inv_processed", "forall(lambda q: imp(len(anl) - j <= q and q < len(anl), "
+          "anl[q][1]._hibernating == (not (anl[q][1] in deme_seeds))))"),
+       cl("inv_seeds", "deme_seeds == last_seeds(self)"),
        cl("inv_awake_new", "forall(lambda l, i: imp(0 <= l < len(self._levels) and old(len(self._levels[l])) <= i and i < len(self._levels[l]), "
           "not self._levels[l][i]._hibernating and self._levels[l][i]._active), pat=self._levels[l][i])")] + struct("self", prefix="inv_") + PREFIX)},
    ensures=struct("self") + PREFIX + [
        cl("created_demes_awake",
           "forall(lambda l, i: imp(0 <= l < len(self._levels) and old(len(self._levels[l])) <= i and i < len(self._levels[l]), "
           "not self._levels[l][i]._hibernating and self._levels[l][i]._active), pat=self._levels[l][i])", tags="C18 C06"),
+       cl("participants_sleep_iff_not_sprouted_from",
+          "imp(hibernation_on(self), forall(lambda l, i: imp(0 <= l and l < len(self._levels) - 1 and 0 <= i < old(len(self._levels[l])) "
+          "and old(self._levels[l][i]._active), "
+          "self._levels[l][i]._hibernating == (not (self._levels[l][i] in last_seeds(self)))), pat=self._levels[l][i]))", tags="C18"),
        cl("no_flag_written_when_off", "imp(not hibernation_on(self), forall(lambda d: imp(old(allocated(d)), "
           "d._hibernating == old(d._hibernating)), d='ref:AbstractDeme'))", tags="C18"),
    ])
